@@ -17,7 +17,16 @@ environment fate through `chooser.env(n, label)`:
                 an answer, times out because the receiver stays mute
 
 `fate_n(frame) -> 1|2|3` limits the alternatives per frame (1 = this frame is
-always delivered and no choice point is logged).
+always delivered and no choice point is logged; `fate_n=lambda f: 1` gives a
+perfect channel).  The label of a choice point is "<idx>:<src>><dst>:<pdu>",
+e.g. "5:T>I:DEP_RES.ACK".
+
+Observation points: `chan.log` (every Frame: idx, src, dst, data, fate, t =
+virtual send time, brty, listen = sent while listen() was running, p = Parsed),
+`chan.faults()`, `chan.last['I'|'T']` (what that side's receiver experienced
+last: ('rx', Frame) | ('crc', Frame) | ('timeout', None)), `chan.stale_dropped`
+(frames that arrived while the initiator was not receiving).  Frames take no
+virtual time; only waiting does.
 
 What the endpoints do on behalf of a driver (and nothing more):
 
